@@ -4,6 +4,10 @@ import json, os, sys
 HERE = os.path.dirname(os.path.abspath(__file__))
 
 CHECKS = {
+ 'C12': dict(technique='runtime monitor: membership predicates from the documentation applied to every gen_sample() value over the sampler option grids; drawn random functions evaluated (and re-evaluated) at random points',
+             text='Exploration by runtime monitoring: every draw of every sampler configuration on the grids (intervals incl. reversed/degenerate, rectangles, sectors mod 2pi, discrete sets, all 288 SquareMatrices option combinations of which the constructor accepts 214, vectors/matrices/tensors x norm ranges x triangular, identity multiples over all scalar samplers, 648 RandomFunction configurations) is checked for type, shape, realness, range, norm, symmetry, trace, determinant; integer endpoints must be attained; random functions must be fixed, of declared arity/shape and within center +/- amplitude.',
+             note='Trusted: numpy linear algebra for the predicates; tolerances of R7; Orthogonal/UnitaryMatrices draws not exercised (scipy absent).',
+             ref='DESIGN.md section 4, C12'),
  'C15': dict(technique='runtime monitor: math/cmath textbook definitions for forward functions, round-trip identities + principal-range membership for inverse functions, numpy on plain arrays for matrix functions; warning recorder, nan scan and error-class check on every evaluator call',
              text='Exploration by runtime monitoring: every documented default function of the Formula/Numerical and Matrix tables (factorial excluded) is called through the real evaluator on real grids, random real/complex points, +-1e-9 neighbourhoods of branch cuts, poles, extreme magnitudes, wrong arities and wrong argument shapes (vectors, matrices, tensors); values are compared with definitions, inverse functions by f(f_inv(z)) = z and real-range membership, errors must be student-facing, and no call may emit a numeric warning or nan.',
              note='Trusted: math/cmath as definitions; tolerances rel 1e-9 (round trips 1e-7); R9 for real arguments outside real domains; scipy-dependent factorial not exercised.',
